@@ -73,15 +73,16 @@ def get_instance_tracker(instances_file_input=None, graph_file_input=None,
     prefix_namespaces_dict = reverse_keys_and_values(namespaces_dict)
     instance_yielder = None  # Old-schooler
     if instances_file_input is not None:
+        # the instantiation triples are read from their own file, whatever the source of the graph is
         instance_yielder = get_triple_yielder(source_file=instances_file_input,
                                               input_format=input_format,
                                               namespaces_to_ignore=namespaces_to_ignore,
-                                              raw_graph=raw_graph,
+                                              raw_graph=None,
                                               namespaces_dict=namespaces_dict,
                                               allow_untyped_numbers=infer_numeric_types_for_untyped_literals,
-                                              url_input=url_input,
-                                              list_of_url_input=list_of_url_input,
-                                              rdflib_graph=rdflib_graph,
+                                              url_input=None,
+                                              list_of_url_input=None,
+                                              rdflib_graph=None,
                                               instantiation_property=instantiation_property,
                                               shape_map_file=shape_map_file,
                                               shape_map_raw=shape_map_raw,
